@@ -135,7 +135,7 @@ int main(int argc, char** argv) {
                 bool ok = game.processString("resign");
                 c.log("resign", "", ok);
             } else if (act < 93) {
-                bool ok = game.processString("a1-h8x");      // not a legal move in any position reached here
+                bool ok = game.processString("a1-a1");       // from == to: not a legal move in any position (a1-h8x was one once in 9000 games)
                 c.log("badmove", "", ok);
             } else if (act < 95) {
                 bool ok = game.processString("new");
